@@ -3,14 +3,16 @@
 spec fn is_dig(c: char) -> bool { '0' <= c && c <= '9' }
 spec fn is_hexd(c: char) -> bool { is_dig(c) || ('a' <= c && c <= 'f') || ('A' <= c && c <= 'F') }
 spec fn is_alpha(c: char) -> bool { ('a' <= c && c <= 'z') || ('A' <= c && c <= 'Z') }
-spec fn in_cls(c: char, cls: int) -> bool { if cls == 0 { is_hexd(c) } else if cls == 1 { is_dig(c) } else { is_alpha(c) } }
+/// class 2: the characters of an entity name after its first letter (letters and digits: `&frac12;`)
+spec fn is_namec(c: char) -> bool { is_alpha(c) || is_dig(c) }
+spec fn in_cls(c: char, cls: int) -> bool { if cls == 0 { is_hexd(c) } else if cls == 1 { is_dig(c) } else { is_namec(c) } }
 /// from k on: class characters up to a `;` -- the index just after the `;`, or -1
 spec fn scan(t: Seq<char>, k: int, cls: int) -> int
     decreases t.len() - k,
 {
     if k < 0 || k >= t.len() { -1 } else if t[k] == ';' { k + 1 } else if in_cls(t[k], cls) { scan(t, k + 1, cls) } else { -1 }
 }
-/// length of the character-reference SHAPE at the start of t (`&#x` hex* `;` | `&#` digit digit* `;` | `&` alpha alpha* `;`), or -1
+/// length of the character-reference SHAPE at the start of t (`&#x` hex* `;` | `&#` digit digit* `;` | `&` letter (letter|digit)* `;`), or -1
 spec fn ent_end(t: Seq<char>) -> int {
     if t.len() < 2 || t[0] != '&' { -1 }
     else if t[1] == '#' {
